@@ -458,7 +458,7 @@ def run(ctx):
 
     # ---------------------------------------------------------------- (a) determinism
     rng = ctx.rng
-    ninputs = 30 if quick else 500
+    ninputs = 24 if quick else 500
     inputs = []
     for i in range(ninputs):
         fl = "api" if i % 2 == 0 else "abi"
@@ -498,11 +498,11 @@ def run(ctx):
         f.write(AW_CHILD)
     if shutil.which("strace") is None:
         raise core.MachineryError("strace not available")
-    nfiles = 3 if quick else 30
+    nfiles = 2 if quick else 30
     scenarios = []
     sid = 0
     for i in range(nfiles):
-        fl = "api" if i % 3 != 2 else "abi"
+        fl = "api" if i % 2 == 0 else "abi"
         cdef = gen_cdef.gen(rng, rng.randint(2, 12), fl)
         pre = gen_cdef.preamble(rng) if fl == "api" else None
         if i == 0:
@@ -526,7 +526,7 @@ def run(ctx):
         for i in relevant_points(res["calls"], lo, hi, res["target"]):
             kill_jobs.append((sc, res, i))
     ctx.sample({"kind": "strace trace of the real _make_c_or_py_source", "old": scenarios[2].old,
-                "events": traces[2]["events"]}, limit=1)
+                "events": traces[2]["events"]}, limit=1)      # scenario 2 = first file, old content differs
 
     def kill_run(job):
         sc, cres, i = job
